@@ -57,21 +57,26 @@ def stream(rep, pid, tier, perms):
         return path
     with concurrent.futures.ThreadPoolExecutor(max_workers=4) as ex:
         paths = list(ex.map(one, parts))
-    with open(cpath, "w") as g:
-        for pth in paths:
-            with open(pth) as f:
-                for ln in f:
-                    g.write(ln)
-            os.remove(pth)
-    # de-duplicate merges (the same merge is pending in many states)
+    # de-duplicate merges (the same merge is pending in many states).  The determinism check (C06, perms > 1) resolves every
+    # merge 18 times or more; in the quick tier it takes every pending merge and a fixed third of the arbitrary pairs / triples.
+    import zlib
     seen = set()
     upath = os.path.join(wd, "cases_unique.ndjson")
-    with open(cpath) as f, open(upath, "w") as g:
-        for ln in f:
-            if ln not in seen:
-                seen.add(ln)
-                g.write(ln)
-    rep.part("mc_room", unique_merges=len(seen))
+    skipped = 0
+    with open(upath, "w") as g:
+        for (part, _), pth in zip(parts, paths):
+            sample = perms > 1 and not thorough and part in ("mc_room_subsets", "mc_room_pairs2")
+            with open(pth) as f:
+                for ln in f:
+                    if ln in seen:
+                        continue
+                    seen.add(ln)
+                    if sample and zlib.crc32(ln.encode()) % 3 != 0:
+                        skipped += 1
+                        continue
+                    g.write(ln)
+            os.remove(pth)
+    rep.part("mc_room", unique_merges=len(seen), left_to_the_thorough_tier=skipped)
     opath = os.path.join(wd, "obs.ndjson")
     vlib.run_harness(["replay", "c07", "--perms", str(perms)], stdin_path=upath, stdout_path=opath, timeout=5400)
     with open(upath) as fc, open(opath) as fo:
